@@ -218,6 +218,9 @@ class SLE(Equilibrium, phases='ls'):
         else: T = thermal_condition.T
         if solubility is not None:
             solute_index = self._solute_index
+            imol = self._imol
+            self._liquid_mol = imol['l']
+            self._solid_mol = imol['s']
             self._mol_solute = (
                 self._solid_mol[solute_index] + self._liquid_mol[solute_index]
             )
